@@ -12,12 +12,18 @@ def c05(tier):
         {'kind': 'cont', 'count': 40 if q else 1500, 'cfgs': 'gc', 'shards': 1 if q else 6},
     ]
 
+    import vmt, vlib
+    vcov = {}
+
+    def steps_check(verdict, sessions, wd):
+        vcov.update(vmt.run(verdict, wd, [('cont', 30 if q else 800)], vlib.seed()))
+
     def relevant(mm, sess, runs):
         return mm['kind'] in ('conformance', 'corpus')
 
     return props.cek_property(
-        'C05', tier, plan, relevant,
-        'sessions of 1-3 blocks drawn from 17 parametrised continuation templates (harness/src/gen_cont.rs): escape from '
+        'C05', tier, plan, relevant, extra_check=steps_check, extra_cov=lambda sessions, ends: {'instruction_traces': vcov},
+        rule='sessions of 1-3 blocks drawn from 17 parametrised continuation templates (harness/src/gen_cont.rs): escape from '
         'for-each/map/deep recursion, re-entry from later top-level forms with counters, operand positions, '
         'continuations stored in globals/vectors/pairs/closures, nested extents, generators, coroutines, re-entry into '
         'a define; each run in a fresh VM and after unrelated definitions')
